@@ -29,7 +29,7 @@ RULE = ("cases = (mixed-type domain, class T, fields given by keyword and/or pos
         "explicit query and with the Python filter (as ordered lists for single-variable terms). Non-trivial = the domain "
         "contains a non-T object and a subclass instance, and a field constraint rejects >= 1 instance of T; distinct = "
         "canonical JSON.")
-BUDGET = {"quick": (4, 400), "thorough": (16, 4000)}
+BUDGET = {"quick": (8, 400), "thorough": (16, 4000)}
 ASSUMPTIONS = ["From(...) is the first positional argument of a predicate-form term",
                "entities compare by identity (eq=False)"]
 
@@ -89,6 +89,16 @@ def _case(draw, tier):
         doms.append(list(draw(st.permutations(list(range(n))))[:size]))
     scalars = draw(st.lists(st.sampled_from([0, 7, "str"]), max_size=2))   # plain scalars inside the domain
     term = _term(draw, P, recs, 2, doms)
+    # the class of the term has an instance in the term's domain more often than chance alone gives
+    def _ensure(t):
+        if t["cls"] in ("EntKw", "EntSub", "EntPlain", "EntV") and chance(draw, 2, 3):
+            cand = [i for i in doms[t["dom"]] if i < n_ent]
+            if cand and not any(recs[i]["cls"] == t["cls"] for i in cand):
+                recs[draw(st.sampled_from(cand))]["cls"] = t["cls"]
+        for v in t["pos"] + [x for _, x in t["kw"]]:
+            if v[0] == "term":
+                _ensure(v[1])
+    _ensure(term)
     wrapper = draw(st.sampled_from(["an_term", "an_entity", "a_extra", "with_var"]))
     return {"ents": recs, "doms": doms, "scalars": scalars, "term": term, "wrapper": wrapper,
             "dom_kind": draw(st.sampled_from(["list", "tuple", "gen"])),
